@@ -204,6 +204,45 @@ class H:
     def fn(self, dotted):
         return self.w.get(dotted)
 
+    # ---- object lifetime: an object no root reaches is collected, and a later object may get its id()
+    def reaches(self, roots, target):
+        """Is `target` reachable from the loaded modules (globals, classes, their attributes) or from `roots`?  References are
+        followed through every abstract value; id() and hash() results do not keep an object alive."""
+        import ast as _ast
+        from . import ae as _ae
+        stack = list(roots) + [m.globals for m in self.w.mods.values() if isinstance(m, _ae.ModuleV)]
+        seen, hold = set(), []
+        while stack:
+            x = stack.pop()
+            if x is target:
+                return True
+            if x is None or isinstance(x, (str, int, float, bool, bytes, _ast.AST, _ae.Digest, _ae.Tok, _ae.Opaque, _ae.World, _ae.Interp)) or type(x).__name__ == "SymId":
+                continue
+            if id(x) in seen:
+                continue
+            seen.add(id(x))
+            hold.append(x)
+            if isinstance(x, dict):
+                stack.extend(x.keys())
+                stack.extend(x.values())
+            elif isinstance(x, (list, tuple, set, frozenset)):
+                stack.extend(x)
+            elif type(x).__module__.startswith("sa."):
+                d = getattr(x, "__dict__", None)
+                if d:
+                    stack.extend(v for k, v in d.items() if k != "_verif_idslot")
+                for sl in getattr(type(x), "__slots__", ()):
+                    stack.append(getattr(x, sl, None))
+        return False
+
+    def reuse_id(self, new, old, roots):
+        """`new` is allocated after `old` was dropped: if nothing reaches `old` any more, `new` may live at its address.
+        -> True when the id was handed on."""
+        if self.reaches(roots, old):
+            return False
+        new._verif_idslot = old
+        return True
+
     def const(self, dotted):
         v = self.w.get(dotted)
         return v
